@@ -104,8 +104,54 @@ func c04(c *Ctx) {
 	c.Res.Rule = "(a) byte strings of length 0..2048 (random, all-0x00/0xff, valid messages with 1-3 mutated bytes, truncated/extended, every length 0..130) into every decoding entry point for all registered message types; (b) every operation through the in-memory driver with replies of arbitrary length and content, every non-nil result rendered with String(), fmt and JSON (also field by field); (c) the listener with arbitrary buffers; (d) hostile arguments: nil maps/slices/IPs, short IPs, zero and extreme time.Time, out-of-range enums, NewHHmm with any ints; a Go panic anywhere (recovered in the caller, or the worker process dying with a trace through the library) is the violation; distinct = distinct (entry point, input class, length class) keys + inputs"
 	r := c.Rng("main")
 	var caseNo int64
-	mts := messageTypes(c)
 
+	// ---------------------------------------------------------------- (0) first use of everything, by 24 goroutines at once
+	// (a fresh process per batch; an application that polls several controllers from the start does exactly this)
+	{
+		getTime := rm.FindOp("GetTime")
+		replies := make([][]byte, 12)
+		for g := range replies {
+			replies[g] = validReply(r, getTime, 1000+uint32(g), rm.Vals{})
+		}
+		status := r.Reply(rm.FindOp("GetStatus"), 0x17, 4242, rm.Vals{}, true)
+		clients := make([]uhppote.IUHPPOTE, 12)
+		for g := range clients {
+			u, d := mkMemClient(ClientCfg{Broadcast: "192.168.1.255:60000"})
+			reply := replies[g]
+			d.Script = func(adapter.Invocation) ([][]byte, error) { return [][]byte{reply}, nil }
+			clients[g] = u
+		}
+		cardJSON := []byte(`{"card-number":8165538,"start-date":"2024-01-01","end-date":"2024-12-31","doors":{"1":true,"2":false,"3":29,"4":true},"PIN":7531}`)
+		firstUse(c, "C04:first-use", "the library (an operation with a valid reply, decoders, parsers)", 12,
+			func(g int) { bcd.Decode([]byte{0x20, 0x24, 0x12, 0x31}) },
+			func(g int) { bcd.Encode("20241231") },
+			func(g int) { clients[g].GetTime(1000 + uint32(g)) },
+			func(g int) { messages.UnmarshalResponse(status) },
+			func(g int) { messages.UnmarshalRequest(replies[g]) },
+			func(g int) {
+				var st messages.GetStatusResponse
+				codec.Unmarshal(status, &st)
+				_ = fmt.Sprintf("%v", st)
+			},
+			func(g int) { types.ParseDate("2024-02-29") },
+			func(g int) { types.HHmmFromString("12:34") },
+			func(g int) { types.ParseBindAddr("192.168.1.100:12345") },
+			func(g int) { types.ParseBroadcastAddr("192.168.1.255") },
+			func(g int) { types.ParseListenAddr("192.168.1.100:60001") },
+			func(g int) { types.ParseControllerAddr("192.168.1.100") },
+			func(g int) {
+				var card types.Card
+				json.Unmarshal(cardJSON, &card)
+				json.Marshal(card)
+				_ = fmt.Sprintf("%v", card)
+				c.Res.Eval(1)
+			})
+	}
+
+	if c.Mode == "firstuse" {
+		return
+	}
+	mts := messageTypes(c) // (uses the library: must come after the first-use phase)
 	// ---------------------------------------------------------------- (a) decoding entry points
 	mkInput := func() ([]byte, string) {
 		switch k := r.Pick(10); {
